@@ -9,6 +9,7 @@ Violations(line) ==
   LET e == Expected(line.in.cfg, line.in.op)  o == line.obs IN
   IF o.panic THEN {"no-panic"}
   ELSE (IF o.res # Coarse(e.res) THEN {"result"} ELSE {}) \cup (IF o.res = Coarse(e.res) /\ o.from # e.from THEN {"source-file"} ELSE {})
+       \cup (IF o.res = Coarse(e.res) /\ o.verified # Verified(line.in.cfg, line.in.op, line.in.rootIn) THEN {"trust-from-the-file-used"} ELSE {})
 Why(line) == line.in.op \o "--expected-" \o Expected(line.in.cfg, line.in.op).res \o "-got-" \o line.obs.res
 Init == l = 1
 Next == /\ l <= Len(Trace)
